@@ -257,9 +257,86 @@ pub fn raw_len() -> BoxedStrategy<usize> {
 
 /// an unknown (not built-in) attribute type, both comprehension-required and optional
 pub fn unknown_type() -> BoxedStrategy<u16> {
-    any::<u16>()
+    // boundary codes (the extremes of both halves of the type space, and the neighbours of the
+    // built-in codes) are drawn explicitly: a uniform u16 would meet each about once in 65 536
+    let boundary = prop_oneof![
+        Just(0x0000u16),
+        Just(0x0002u16),
+        Just(0x7ffeu16),
+        Just(0x7fffu16),
+        Just(0x8000u16),
+        Just(0x8001u16),
+        Just(0xfffeu16),
+        Just(0xffffu16),
+        (0usize..19, prop_oneof![Just(1i32), Just(-1i32)]).prop_map(|(i, d)| (crate::refattrs::ALL_KINDS[i].code() as i32 + d) as u16),
+    ];
+    prop_oneof![4 => any::<u16>(), 1 => boundary]
         .prop_map(|t| if Kind::from_code(t).is_some() { t ^ 0x0100 } else { t })
         .prop_filter("built-in", |t| Kind::from_code(*t).is_none())
+        .boxed()
+}
+
+/// A value for attribute type `kind` that is valid or one small step away from valid: the
+/// reference encoding of generated in-limit fields, then truncated, extended, bit-damaged,
+/// followed by a fragment of itself or by a second valid value. These are the inputs on which a
+/// typed decoder gets past its first checks and into its field extraction.
+pub fn near_valid_value(kind: Kind) -> BoxedStrategy<Vec<u8>> {
+    let tid = 0x0102_0304_0506_0708_090a_0b0cu128;
+    let base = fields_strategy(kind).prop_map(move |f| refattrs::encode(kind, &f, tid).unwrap_or_default());
+    (base.clone(), base, 0u8..10, any::<u16>(), any::<u8>())
+        .prop_map(|(mut v, second, how, a, b)| {
+            match how {
+                0 | 1 => {}
+                2 => {
+                    let cut = 1 + (a as usize) % 8;
+                    let keep = v.len().saturating_sub(cut);
+                    v.truncate(keep);
+                }
+                3 => {
+                    let n = 1 + (a as usize) % 8;
+                    v.extend(fill_bytes(n, b as u64 + 1, (b % 4) as u8));
+                }
+                4 => {
+                    if !v.is_empty() {
+                        let i = (a as usize * v.len()) >> 16;
+                        v[i] ^= b | 1;
+                    }
+                }
+                5 => {
+                    // the value followed by a 1..3 byte fragment of itself
+                    let n = (1 + (a as usize) % 3).min(v.len());
+                    let frag = v[..n].to_vec();
+                    v.extend(frag);
+                }
+                6 => v.extend(second),
+                7 => {
+                    // the value followed by the first bytes of a second valid value
+                    let n = (1 + (a as usize) % 7).min(second.len());
+                    v.extend_from_slice(&second[..n]);
+                }
+                8 => {
+                    let keep = (a as usize * (v.len() + 1)) >> 16;
+                    v.truncate(keep);
+                }
+                _ => {
+                    if !v.is_empty() {
+                        let i = (a as usize * v.len()) >> 16;
+                        v[i] = b;
+                    }
+                }
+            }
+            v
+        })
+        .boxed()
+}
+
+/// (type code, near-valid value) for any of the 19 built-in types
+pub fn near_valid_attr() -> BoxedStrategy<(u16, Vec<u8>)> {
+    (0usize..19)
+        .prop_flat_map(|i| {
+            let kind = crate::refattrs::ALL_KINDS[i];
+            near_valid_value(kind).prop_map(move |v| (kind.code(), v))
+        })
         .boxed()
 }
 
